@@ -1,7 +1,10 @@
 (* C13 — load-balancing groups (server/group/tcp.go, http.go, tcpmux.go) as an executable model.
    No proofs here.
 
-   One model for the three controller kinds.  What is mirrored, function by function:
+   One model for the three controller kinds.  A join of the CURRENT code is one atomic step
+   (lookup-or-create and the group's Listen/Register both under the controller lock, since the
+   repair of finding F-C13); [stepg true] keeps the former two-step join for regression witnesses.
+   What is mirrored, function by function:
 
      lookup      = the controller-lock section of TCPGroupCtl.Listen / HTTPGroupController.Register /
                    TCPMuxGroupCtl.Listen: find the group object under its name, or create a fresh one
@@ -340,8 +343,10 @@ Definition stepg (two : bool) (k : kind) (reqs : list req) (i : nat) (c : cfg) :
         let (s'', r) := mutate k s' gid j (lid_of k j i) in
         Run (set_t c s'' i (match r with JOk p => TMember gid p | JErr e => TRefused e end))
   | Some (QJoin j), Some (TLooked gid) =>
-      let (s', r) := mutate k s gid j (lid_of k j i) in
-      Run (set_t c s' i (match r with JOk p => TMember gid p | JErr e => TRefused e end))
+      if two then
+        let (s', r) := mutate k s gid j (lid_of k j i) in
+        Run (set_t c s' i (match r with JOk p => TMember gid p | JErr e => TRefused e end))
+      else Run c                                       (* no such thread state in the current code *)
   | Some (QLeave jt), Some TInit =>
       match nth_error reqs jt, nth_error (c_t c) jt with
       | Some (QJoin j), Some (TMember gid _) =>
